@@ -32,6 +32,13 @@ def sid(s: str) -> str:
     return "#" + hashlib.sha1(s.encode("utf-8", "surrogatepass")).hexdigest()[:12]
 
 
+def kid(s: str) -> str:
+    """Keys (dict keys, JSON object keys, dataclass field names): verbatim up to 48 characters."""
+    if len(s) <= 48 and not s.startswith("#") and all(c in _OKCHARS for c in s):
+        return s
+    return sid(s)
+
+
 def bid(b: bytes) -> str:
     return b.hex() if len(b) <= 8 else "#" + hashlib.sha1(b).hexdigest()[:12]
 
@@ -89,12 +96,12 @@ class Proj:
         if dataclasses.is_dataclass(x) and not isinstance(x, type):
             self.classes.add(type(x).__name__)
             return {"t": "dc", "c": type(x).__name__,
-                    "f": [[f.name, self.py(getattr(x, f.name))] for f in dataclasses.fields(x)]}
+                    "f": [[kid(f.name), self.py(getattr(x, f.name))] for f in dataclasses.fields(x)]}
         if isinstance(x, dict):
             for mk in ("_bytes", "_bytesio"):
                 if mk in x:
                     self._dec_fact(x[mk])
-            return {"t": "dict", "kv": [[sid(str(k)), self.py(v)] for k, v in x.items()]}
+            return {"t": "dict", "kv": [[kid(str(k)), self.py(v)] for k, v in x.items()]}
         if isinstance(x, (list, tuple, set)):
             tag = "list" if isinstance(x, list) else ("tuple" if isinstance(x, tuple) else "set")
             return {"t": tag, "xs": [self.py(i) for i in self._cut(x)]}
@@ -115,7 +122,7 @@ class Proj:
         if isinstance(j, list):
             return {"t": "arr", "xs": [self.js(i) for i in self._cut(j)]}
         if isinstance(j, dict):
-            return {"t": "obj", "kv": [[sid(k), self.js(v)] for k, v in j.items()]}
+            return {"t": "obj", "kv": [[kid(k), self.js(v)] for k, v in j.items()]}
         return {"t": "py", "k": type(j).__name__}
 
 
@@ -210,7 +217,7 @@ def export_schema() -> dict:
                     d = {"t": "required"}
             else:
                 d = {"t": "required"}
-            fs.append([f.name, hint_of(hints.get(f.name, typing.Any), reg), d, bool(f.init)])
+            fs.append([kid(f.name), hint_of(hints.get(f.name, typing.Any), reg), d, bool(f.init)])
         out[name] = {"fields": fs, "instantiable": _instantiable(cls),
                      "to_json": callable(getattr(cls, "to_json", None)),
                      "content": all(callable(getattr(cls, m, None)) for m in
